@@ -9,6 +9,7 @@ NAME = "vworld"
 SDL = """
 directive @tag(n: Int, l: [Int]) on QUERY | MUTATION | SUBSCRIPTION | FIELD | FRAGMENT_DEFINITION | FRAGMENT_SPREAD | INLINE_FRAGMENT
 directive @onlyq(n: Int) on QUERY
+directive @lim(max: Int! = 3, hint: String) on FIELD | QUERY
 directive @mark on FIELD_DEFINITION | ARGUMENT_DEFINITION | INPUT_FIELD_DEFINITION | SCALAR | ENUM | OBJECT
 interface Node { id: ID! }
 type A implements Node { id: ID! n: Int peer: Node }
@@ -89,7 +90,7 @@ class MyScalar:
 
 def make(name=NAME, **kw):
     from tartiflette import Scalar
-    for d in ("tag", "onlyq", "mark"):
+    for d in ("tag", "onlyq", "mark", "lim"):
         Directive(d, schema_name=name)(Hooks(d))
     Scalar("My", schema_name=name)(MyScalar)
     TypeResolver("Node", schema_name=name)(_tres)
